@@ -43,6 +43,7 @@ func TestVerifC55(t *testing.T) {
 			collect(tree, &dirs, &files)
 			unreadable := 0
 			vanished := 0
+			partialDirs := 0 // directories whose listing fails part-way: whether the listed part is kept is not prescribed
 			var desc []string
 			// find the twin of a node in the expectation clone by path
 			var damage func(orig, exp *simfs.Node)
@@ -65,6 +66,13 @@ func TestVerifC55(t *testing.T) {
 						exp.Remove(k.Name)
 						unreadable++
 						desc = append(desc, k.Name+":readdir-fails")
+						continue
+					case c == 5 && k.IsDir() && len(k.Kids) > 0:
+						k.ReaddirCut = 1 + tp.Choose(len(k.Kids)+1)
+						exp.Remove(k.Name)
+						unreadable++
+						partialDirs++
+						desc = append(desc, fmt.Sprintf("%s:readdir-fails-after-%d-of-%d-names", k.Name, k.ReaddirCut-1, len(k.Kids)))
 						continue
 					case c == 3:
 						k.Vanish = true
@@ -119,6 +127,9 @@ func TestVerifC55(t *testing.T) {
 					}
 					if err := repo.LoadIndex(ctx, restic.NoopTerminalCounterFactory); err != nil {
 						r.Fail("snapshot", "index-failed", "%s: %v", where, err)
+						return nil
+					}
+					if partialDirs > 0 {
 						return nil
 					}
 					if d := verifySnapshot(ctx, repo, res.NewID, expect); d != "" {
